@@ -77,7 +77,10 @@ func runC13(c *an.Ctx) {
 	// R2
 	st := sm(c, "R2", "Snapshotter", "stream")
 	if st != nil {
-		self := "local:s"
+		self := "$0"
+		for _, in := range an.CallsTo(st, "(*Snapshotter).tryAppend") {
+			self = an.Path(an.CallOf(in).Args[0]) // the receiver as seen inside the goroutine (captured or direct)
+		}
 		app := an.FindInstrs(st, func(in ssa.Instruction) bool {
 			return an.IsCallTo(in, "(*Snapshotter).tryAppend") && an.Path(an.CallOf(in).Args[1]) == `c:"leave\n"`
 		})
